@@ -27,7 +27,7 @@ ASSUMPTIONS = [
 REQUIRED = ['mech:analytic', 'mech:pkpd', 'pop', 'nopop', 'cov', 'doses', 'fixed', 'ids:int', 'ids:str', 'ids:npint',
             'custom_keys', 'explicit_map', 'nan_values', 'nan_times', 'unrelated', 'multi_output',
             'explicit_map:other_order', 'dose_row_with_measurement', 'pop_model_replaced',
-            'controller_reused', 'unrelated_row_first:default_map_single_output']
+            'controller_reused', 'unrelated_row_first:default_map_single_output', 'unmeasured_individual:hierarchical', 'observable_named_like_covariate']
 OBS_TIMES_POOL = 6
 
 
@@ -62,7 +62,13 @@ def _spec(draw):
             nan_v = [gen.chance(draw, 0.12) for _ in range(n)]
             nan_t = [gen.chance(draw, 0.08) for _ in range(n)]
             series.append(dict(t=ts, v=vals, nan_v=nan_v, nan_t=nan_t))
-        if all(sum(1 for a, b in zip(s_['nan_v'], s_['nan_t']) if not a and not b) == 0 for s_ in series):
+        usable = sum(1 for s_ in series for a, b in zip(s_['nan_v'], s_['nan_t']) if not a and not b)
+        if i > 0 and gen.chance(draw, 0.08):
+            # an individual without any usable measurement (only missing values): it keeps its place in the
+            # hierarchical model and contributes its population term only
+            for s_ in series:
+                s_['nan_v'] = [True] * len(s_['t'])
+        elif usable == 0:
             series[0]['nan_v'] = [False] * len(series[0]['t'])
             series[0]['nan_t'] = [False] * len(series[0]['t'])
         doses = []
@@ -140,7 +146,8 @@ def _spec(draw):
         no_dur_col=pk and gen.chance(draw, 0.2),
         order_seed=draw(st.integers(0, 10 ** 6)),
         pop_first=draw(st.booleans()),
-        unrelated_first=draw(st.booleans()))
+        unrelated_first=draw(st.booleans()),
+        cov_decoy=draw(st.booleans()))
     if pop is not None and ref.pop_n_cov(pop) > 0 and deco['explicit_map']:
         # set_population_model after set_data resets the data when the default covariate names are
         # not observables of the frame (documented: "Please set the data again")
@@ -172,6 +179,13 @@ def classify(spec):
         labs.append('nan_values')
     if any(any(s['nan_t']) for i in spec['indiv'] for s in i['series']):
         labs.append('nan_times')
+    for i, ind in enumerate(spec['indiv']):
+        if not any(not a and not b for s_ in ind['series'] for a, b in zip(s_['nan_v'], s_['nan_t'])):
+            labs.append('unmeasured_individual')
+            if spec['pop'] is not None:
+                labs.append('unmeasured_individual:hierarchical')
+    if spec['pop'] is not None and spec['cov'] is not None and len(spec['cov'][0]) and d['explicit_map'] and d.get('cov_decoy'):
+        labs.append('observable_named_like_covariate')
     if d['unrelated'] or d['extra_col'] or d['nan_rows']:
         labs.append('unrelated')
     if d['unrelated'] and d.get('unrelated_first'):
@@ -282,6 +296,12 @@ def build_frame(spec, deco):
                 rows.append({K['id']: ids[i], K['time']: np.nan, K['obs']: _cov_observable(spec, c),
                              K['value']: spec['cov'][i][c], K['dose']: np.nan, K['dur']: np.nan})
             blocks.append(rows)
+        if spec['pop'] is not None and spec['cov'] is not None and deco['explicit_map'] and deco.get('cov_decoy'):
+            # an unrelated observable that carries the NAME of a model covariate (one value per individual) although
+            # the explicit map sends that covariate to another observable
+            for c in range(len(spec['cov'][i])):
+                blocks.append([{K['id']: ids[i], K['time']: np.nan, K['obs']: 'Cov. %d' % (c + 1),
+                                K['value']: 100.0 + 10 * c + i, K['dose']: np.nan, K['dur']: np.nan}])
         for u in range(deco['unrelated']):
             blocks.append([{K['id']: ids[i], K['time']: 0.5 + u, K['obs']: 'unrelated %d' % u, K['value']: 3.0 + u,
                             K['dose']: np.nan, K['dur']: np.nan}])
